@@ -252,6 +252,38 @@ impl<'a> TokenBasedLuaGenerator<'a> {
                 self.write_symbol(":");
             }
             self.write_identifier(method);
+
+            if call.has_method_type_instantiation() {
+                let generated_tokens;
+                let instantiation_tokens = match &tokens.type_instantiation_tokens {
+                    Some(instantiation_tokens) => instantiation_tokens,
+                    None => {
+                        generated_tokens = self.generate_function_call_tokens(call);
+                        generated_tokens
+                            .type_instantiation_tokens
+                            .as_ref()
+                            .expect("tokens are generated for the method type instantiation")
+                    }
+                };
+                self.write_token(&instantiation_tokens.first_opening_list);
+                self.write_token(&instantiation_tokens.second_opening_list);
+
+                let mut index = 0;
+                for r#type in call.get_method_type_instantiation() {
+                    if index != 0 {
+                        if let Some(comma) = instantiation_tokens.commas.get(index - 1) {
+                            self.write_token(comma);
+                        } else {
+                            self.write_symbol(",");
+                        }
+                    }
+                    self.write_type(r#type);
+                    index += 1;
+                }
+
+                self.write_token(&instantiation_tokens.first_closing_list);
+                self.write_token(&instantiation_tokens.second_closing_list);
+            }
         }
         self.write_arguments(call.get_arguments());
     }
